@@ -92,6 +92,10 @@ def main():
     if out.strip():
         print("refusing: /repo is not clean"); return 2
     rc, out = sh(["git", "-C", "/repo", "apply", patch])
+    saved = {}
+    for c in checks:   # evidence files must only ever come from runs on the unchanged tree: keep and restore them
+        ep = os.path.join(V, "evidence", c + ".json")
+        saved[ep] = open(ep).read() if os.path.exists(ep) else None
     try:
         for c in checks:
             t = time.time()
@@ -101,6 +105,12 @@ def main():
                       "first": "\n".join(lines[:2])[:700], "wall_s": round(time.time() - t, 1)}
     finally:
         sh(["git", "-C", "/repo", "checkout", "--", "."])
+        for ep, txt in saved.items():
+            if txt is None:
+                if os.path.exists(ep):
+                    os.remove(ep)
+            else:
+                open(ep, "w").write(txt)
         sh([os.path.join(V, "build", "bin", "extract"), "-lean", os.path.join(V, "lean/QuartzModel/Generated/Facts.lean"), "-json", os.path.join(V, "build/facts.json")])
     meta["checks_run"] = res
     meta["what_i_ran"] = "tools/seedtest.py %s (scratch worktree: apply, go build, existing suite, demo with/without; then git -C /repo apply, ./check <id>, git -C /repo checkout -- .)" % " ".join(sys.argv[1:])
